@@ -150,6 +150,8 @@ def run(ctx):
     c06_model.run_model(ctx)          # ties TLX.TcpOut (the model the theorems are about) to the real OutputBuilder
     import q1_udpout
     q1_udpout.correspond(ctx)         # ties TLX.Quic.UdpOut to the real QUICOutputbuilder
+    import c05
+    c05.reasm_corr(ctx, frac=0.3)     # ties TLX.Reassembly (carriers, online delivery) to the real Session
     session_corr.correspond(ctx)      # ties TLX.Session to the real Session
     explore(ctx)
     return ctx.finish(search=lambda c: explore(c, scale=2))
